@@ -186,3 +186,12 @@ pub enum TryReserveError {
         layout: alloc::alloc::Layout,
     },
 }
+
+/// Read-only verification hooks (cargo feature `verif-hooks`, off by default).
+#[cfg(feature = "verif-hooks")]
+pub mod verif {
+    pub use crate::control::verif::*;
+    #[cfg(feature = "rayon")]
+    pub use crate::external_trait_impls::rayon::raw::verif::DrainNode;
+    pub use crate::raw::verif::*;
+}
